@@ -102,10 +102,27 @@ class FakeState:
         self.fail = fail or (lambda what: False)
         self.updates = 0
 
+    def __getattr__(self, name):
+        # (only reached for attributes the stub does not define) - the run is then a harness error, not a finding
+        if name.startswith('__'):
+            raise AttributeError(name)
+        self.h.stub_gaps.append(f'FakeState.{name}')
+        raise AttributeError(f'FakeState does not model AbstractState.{name}')
+
+    # identification methods of CoolProp's AbstractState: the backend name does NOT identify the fluid
+    def backend_name(self):
+        return 'HelmholtzEOSBackend'
+
+    def name(self):
+        return f'fake-{self.tag}'
+
+    def fluid_names(self):
+        return [f'fake-{self.tag}']
+
     def update(self, pair, a, b):
         from pygaps.utilities.coolprop_utilities import CP
         if self.fail('update'):
-            raise ValueError('stub backend failure in update')
+            raise symx.simulated(ValueError('stub backend failure in update'))
         if pair == CP.QT_INPUTS:
             self.kind = 'QT'
         elif pair == CP.PQ_INPUTS:
@@ -117,7 +134,7 @@ class FakeState:
 
     def _get(self, what, prop, use_q=True):
         if self.fail(what):
-            raise ValueError(f'stub backend failure in {what}')
+            raise symx.simulated(ValueError(f'stub backend failure in {what}'))
         if self.last is None:
             # arbitrary stale state: an unconstrained "previous update"
             x, y = self.h.real(f'stale_q_{self.tag}'), self.h.real(f'stale_T_{self.tag}')
@@ -150,7 +167,7 @@ class FakeState:
 
     def molar_mass(self):
         if self.fail('molar_mass'):
-            raise ValueError('stub backend failure in molar_mass')
+            raise symx.simulated(ValueError('stub backend failure in molar_mass'))
         return self.h.real(f'Mkg_{self.tag}', pos=True) if self.h.sym else self.h.real(f'Mkg_{self.tag}')
 
     def p_critical(self):
